@@ -649,13 +649,22 @@ class IPPO(MultiAgentRLAlgorithm):
                     + self.gamma * self.gae_lambda * next_non_terminal * last_gae_lambda
                 )
 
-            advantages = advantages.reshape((-1,))
-            values = values.reshape((-1,))
+            # NOTE: States and actions are concatenated agent by agent, so the estimates
+            # need to be ordered (agent, step, env) rather than (step, agent, env)
+            n_agents = len(states)
+
+            def agent_major(x: torch.Tensor) -> torch.Tensor:
+                return (
+                    x.reshape(num_steps, n_agents, -1).transpose(0, 1).reshape((-1,))
+                )
+
+            advantages = agent_major(advantages)
+            values = agent_major(values)
             returns = advantages + values
 
         states = concatenate_experiences_into_batches(states, obs_space)
         actions = concatenate_experiences_into_batches(actions, action_space)
-        log_probs = log_probs.reshape((-1,))
+        log_probs = agent_major(log_probs)
         experiences = (states, actions, log_probs, advantages, returns, values)
 
         # Move experiences to algo device
